@@ -134,7 +134,9 @@ class Code15(Code13):
 
     def freeze(self):
         for field in "co_consts co_names co_varnames co_freevars co_cellvars".split():
-            val = getattr(self, field)
+            # Code15 (Python 1.5 .. 1.6) has no free or cell variables;
+            # Code2, which inherits this method, does.
+            val = getattr(self, field, None)
             if isinstance(val, list):
                 setattr(self, field, tuple(val))
 
